@@ -115,6 +115,19 @@ def build_table(repo_root: Path, units):
         visit(tree.body, "")
         if entry:
             table[rel] = entry
+        allq = []
+
+        def names(body, prefix):
+            for st in body:
+                if isinstance(st, ast.ClassDef):
+                    names(st.body, prefix + st.name + ".")
+                elif isinstance(st, (ast.FunctionDef, ast.AsyncFunctionDef)):
+                    q = prefix + st.name
+                    if any(ast.unparse(d).endswith(".setter") for d in st.decorator_list):
+                        q += ".setter"
+                    allq.append(q)
+        names(tree.body, "")
+        table.setdefault("__functions__", {})[rel] = allq
     return table
 
 
@@ -254,4 +267,275 @@ def inline_new_temps(rel, fn, qual):
                     break
             if changed:
                 break
+    return done
+
+
+# ---------------------------------------------------------------------------------------------------------
+# helper functions the reference tree does not have ("extract method"): a call of such a helper whose body is
+# straight-line code ending in at most one `return` is the helper's body with the parameters bound to the
+# arguments.  Writing the body back at the call site is the inverse of the refactoring and preserves behaviour.
+def reference_functions(rel):
+    return set(load_table().get("__functions__", {}).get(rel, []))
+
+
+def _simple_helper(fn):
+    if fn.args.vararg or fn.args.kwarg or fn.args.posonlyargs or fn.args.kwonlyargs:
+        return False
+    for d in fn.decorator_list:
+        if not (isinstance(d, ast.Name) and d.id in ("staticmethod", "pure", "inline")):
+            return False
+    body = [st for st in fn.body if not (isinstance(st, ast.Expr) and isinstance(st.value, ast.Constant))]
+    if not body:
+        return False
+    for n in ast.walk(fn):
+        if n is fn:
+            continue
+        if isinstance(n, (ast.FunctionDef, ast.AsyncFunctionDef, ast.ClassDef, ast.Lambda, ast.Yield, ast.YieldFrom, ast.Global,
+                          ast.Nonlocal, ast.Try, ast.With)):
+            return False
+    rets = [n for n in ast.walk(fn) if isinstance(n, ast.Return)]
+    if len(rets) > 1 or (rets and rets[0] is not body[-1]):
+        return False
+    return True
+
+
+class _RenameAll(ast.NodeTransformer):
+    def __init__(self, m):
+        self.m = m
+
+    def visit_Name(self, node):
+        if node.id in self.m:
+            node.id = self.m[node.id]
+        return node
+
+
+def _clone_body(fn):
+    mod = ast.parse(ast.unparse(ast.Module(body=[st for st in fn.body if not (isinstance(st, ast.Expr) and isinstance(st.value, ast.Constant))],
+                                           type_ignores=[])))
+    return mod.body
+
+
+def inline_new_helpers(tree, rel):
+    """-> list of (caller qualname, helper name) inlined"""
+    ref = reference_functions(rel)
+    if not ref:
+        return []
+    helpers = {}           # (class or None, name) -> FunctionDef
+    known = []             # (qualname, FunctionDef, class name or None)
+    for st in tree.body:
+        if isinstance(st, ast.FunctionDef):
+            if st.name in ref:
+                known.append((st.name, st, None))
+            else:
+                helpers[(None, st.name)] = st
+        elif isinstance(st, ast.ClassDef):
+            for m in st.body:
+                if isinstance(m, ast.FunctionDef):
+                    q = f"{st.name}.{m.name}"
+                    if any(ast.unparse(d).endswith(".setter") for d in m.decorator_list):
+                        q += ".setter"
+                    if q in ref:
+                        known.append((q, m, st.name))
+                    else:
+                        helpers[(st.name, m.name)] = m
+    helpers = {k: v for k, v in helpers.items() if _simple_helper(v)}
+    if not helpers:
+        return []
+    done = []
+    counter = [0]
+
+    def resolve(call, cls):
+        f = call.func
+        if isinstance(f, ast.Name) and (None, f.id) in helpers:
+            return helpers[(None, f.id)], False
+        if isinstance(f, ast.Attribute) and isinstance(f.value, ast.Name):
+            if f.value.id == "self" and cls and (cls, f.attr) in helpers:
+                h = helpers[(cls, f.attr)]
+                static = any(isinstance(d, ast.Name) and d.id == "staticmethod" for d in h.decorator_list)
+                return h, not static
+            if (f.value.id, f.attr) in helpers:
+                h = helpers[(f.value.id, f.attr)]
+                static = any(isinstance(d, ast.Name) and d.id == "staticmethod" for d in h.decorator_list)
+                return (h, False) if static else (None, False)
+        return None, False
+
+    def expand(call, h, bound_self, caller_names, kind, target):
+        """statements replacing the call; kind in expr/assign/return"""
+        counter[0] += 1
+        params = [a.arg for a in h.args.args]
+        defaults = dict(zip(params[len(params) - len(h.args.defaults):], h.args.defaults))
+        actual = {}
+        pos = list(call.args)
+        if bound_self:
+            actual[params[0]] = ast.Name(id="self", ctx=ast.Load())
+            rest = params[1:]
+        else:
+            rest = params
+        if len(pos) > len(rest) or any(isinstance(a, ast.Starred) for a in pos) or any(k.arg is None for k in call.keywords):
+            return None
+        for p, a in zip(rest, pos):
+            actual[p] = a
+        for k in call.keywords:
+            if k.arg not in rest or k.arg in actual:
+                return None
+            actual[k.arg] = k.value
+        for p in rest:
+            if p not in actual:
+                if p not in defaults:
+                    return None
+                actual[p] = defaults[p]
+        body = _clone_body(h)
+        stored = {n.id for st in body for n in ast.walk(st) if isinstance(n, ast.Name) and isinstance(n.ctx, ast.Store)}
+        mapping, pre = {}, []
+        for p in params:
+            a = actual[p]
+            if isinstance(a, ast.Name) and p not in stored:
+                if a.id != p:
+                    mapping[p] = a.id
+            else:
+                new = p if p not in caller_names else f"{p}__h{counter[0]}"
+                if new != p:
+                    mapping[p] = new
+                pre.append(ast.Assign(targets=[ast.Name(id=new, ctx=ast.Store())], value=ast.parse(ast.unparse(a), mode="eval").body))
+        for loc in stored - set(params):
+            if loc in caller_names:
+                mapping[loc] = f"{loc}__h{counter[0]}"
+        # a mapped parameter must not capture a helper local of the same name
+        if set(mapping.values()) & (stored - set(mapping)):
+            return None
+        body = [_RenameAll(mapping).visit(st) for st in body]
+        out = pre + body
+        if out and isinstance(out[-1], ast.Return):
+            r = out.pop()
+            val = r.value if r.value is not None else ast.Constant(value=None)
+            if kind == "assign":
+                out.append(ast.Assign(targets=[target], value=val))
+            elif kind == "return":
+                out.append(ast.Return(value=val))
+            elif kind == "augassign":
+                out.append(ast.AugAssign(target=target[0], op=target[1], value=val))
+        elif kind in ("assign", "augassign"):
+            return None
+        elif kind == "return":
+            out.append(ast.Return(value=ast.Constant(value=None)))
+        for st in out:
+            for x in ast.walk(st):
+                ast.copy_location(x, call)
+        return out
+
+    def process(fn, cls, qual):
+        changed = True
+        rounds = 0
+        while changed and rounds < 20:
+            changed = False
+            rounds += 1
+            caller_names = {n.id for n in ast.walk(fn) if isinstance(n, ast.Name)} | params_of(fn)
+            for node in ast.walk(fn):
+                for f in ("body", "orelse", "finalbody"):
+                    blk = getattr(node, f, None)
+                    if not isinstance(blk, list):
+                        continue
+                    for k, st in enumerate(blk):
+                        call = kind = target = None
+                        if isinstance(st, ast.Expr) and isinstance(st.value, ast.Call):
+                            call, kind = st.value, "expr"
+                        elif isinstance(st, ast.Assign) and len(st.targets) == 1 and isinstance(st.value, ast.Call):
+                            call, kind, target = st.value, "assign", st.targets[0]
+                        elif isinstance(st, ast.Return) and isinstance(st.value, ast.Call):
+                            call, kind = st.value, "return"
+                        elif isinstance(st, ast.AugAssign) and isinstance(st.value, ast.Call):
+                            call, kind, target = st.value, "augassign", (st.target, st.op)
+                        if call is None:
+                            continue
+                        h, bound = resolve(call, cls)
+                        if h is None or h is fn:
+                            continue
+                        new = expand(call, h, bound, caller_names, kind, target)
+                        if new is None:
+                            continue
+                        blk[k:k + 1] = new
+                        done.append((qual, h.name))
+                        changed = True
+                        break
+                    if changed:
+                        break
+                if changed:
+                    break
+
+    # expression helpers (`def h(a, b): return <expr>`): a call anywhere inside an expression is the expression itself
+    def is_expr_helper(h):
+        body = [st for st in h.body if not (isinstance(st, ast.Expr) and isinstance(st.value, ast.Constant))]
+        return len(body) == 1 and isinstance(body[0], ast.Return) and body[0].value is not None
+
+    class _ExprInline(ast.NodeTransformer):
+        def __init__(self, cls, qual):
+            self.cls, self.qual, self.n = cls, qual, 0
+
+        def visit_Call(self, node):
+            self.generic_visit(node)
+            h, bound = resolve(node, self.cls)
+            if h is None or not is_expr_helper(h):
+                return node
+            params = [a.arg for a in h.args.args]
+            rest = params[1:] if bound else params
+            if len(node.args) > len(rest) or any(isinstance(a, ast.Starred) for a in node.args) or any(k.arg is None for k in node.keywords):
+                return node
+            actual = dict(zip(rest, node.args))
+            for k in node.keywords:
+                if k.arg not in rest or k.arg in actual:
+                    return node
+                actual[k.arg] = k.value
+            defaults = dict(zip(params[len(params) - len(h.args.defaults):], h.args.defaults))
+            for p_ in rest:
+                if p_ not in actual:
+                    if p_ not in defaults:
+                        return node
+                    actual[p_] = defaults[p_]
+            if bound:
+                actual[params[0]] = ast.Name(id="self", ctx=ast.Load())
+            body = [st for st in h.body if not (isinstance(st, ast.Expr) and isinstance(st.value, ast.Constant))]
+            expr = ast.parse(ast.unparse(body[0].value), mode="eval").body
+            uses = {}
+            for x in ast.walk(expr):
+                if isinstance(x, ast.Name) and x.id in actual:
+                    uses[x.id] = uses.get(x.id, 0) + 1
+            for p_, a in actual.items():
+                simple = isinstance(a, (ast.Name, ast.Constant, ast.Attribute, ast.Subscript)) and _pure(a)
+                if uses.get(p_, 0) > 1 and not simple and not _pure(a):
+                    return node
+                if uses.get(p_, 0) == 0 and not _pure(a):
+                    return node
+            # locals of the expression (comprehension variables) must not capture names of the arguments
+            bound_in_expr = {x.id for x in ast.walk(expr) if isinstance(x, ast.Name) and isinstance(x.ctx, ast.Store)}
+            arg_names = {x.id for a in actual.values() for x in ast.walk(a) if isinstance(x, ast.Name)}
+            if bound_in_expr & arg_names:
+                return node
+
+            class Sub(ast.NodeTransformer):
+                def visit_Name(self_, x):
+                    if x.id in actual and isinstance(x.ctx, ast.Load):
+                        return ast.parse(ast.unparse(actual[x.id]), mode="eval").body
+                    return x
+            new = Sub().visit(expr)
+            for x in ast.walk(new):
+                ast.copy_location(x, node)
+            self.n += 1
+            done.append((self.qual, h.name))
+            return new
+
+    def process_expr(fn, cls, qual):
+        for _ in range(5):
+            t = _ExprInline(cls, qual)
+            for k, st in enumerate(fn.body):
+                fn.body[k] = t.visit(st)
+            if not t.n:
+                break
+
+    # helpers may call helpers: expand inside helpers first (bounded), then in the known functions
+    for (cls, name), h in list(helpers.items()):
+        process_expr(h, cls, (cls + "." if cls else "") + name)
+        process(h, cls, (cls + "." if cls else "") + name)
+    for q, fn, cls in known:
+        process_expr(fn, cls, q)
+        process(fn, cls, q)
     return done
